@@ -118,6 +118,21 @@ def run(tier, seed):
                     chk.evals += 1
                     if not il.startswith("OK") and not il.startswith("ERR Lib:"):
                         chk.violation(f"credential JSON parser raised outside the hierarchy: {il}", f"nonlib-parser {kind}-json {il}", {"entry": f"parse_{kind}_credential_json", "input": val, "impl": il})
+    # credential TEXT that json.loads itself refuses with something other than JSONDecodeError (an integer longer than the interpreter converts by
+    # default, lone surrogates are fine, ...) - also when it reaches the parsers through the verification entry points
+    s0 = authcat_scn()
+    pol0, a0 = s0.build()
+    for num in ("1" + "0" * 5000, "-" + "9" * 4301, "[" + "7" * 6000 + "]", "1E400", "NaN"):
+        for kind, base in (("auth", base_a), ("reg", base_r)):
+            t = json.dumps(base)[:-1] + ', "zz": ' + num + "}"
+            il = (impl.parse_auth_cred if kind == "auth" else impl.parse_reg_cred)(t)
+            chk.evals += 1
+            if not il.startswith("OK") and not il.startswith("ERR Lib:"):
+                chk.violation(f"credential JSON parser raised outside the hierarchy: {il}", f"nonlib-parser {kind}-json-number {il}", {"entry": f"parse_{kind}_credential_json", "text": t[:200], "text_length": len(t), "impl": il})
+        t = json.dumps(a0.as_dict())[:-1] + ', "zz": ' + num + "}"
+        il = impl.verify_auth(pol0, t)
+        chk.evals += 1
+        judge(il, "credential-text-with-number " + num[:8], {"entry": "verify_authentication_response", "text": t[:300], "text_length": len(t), "impl": il})
     for i in range(300 if quick else 20000):
         kind, base = rng.choice((("auth", base_a), ("reg", base_r)))
         d = jsonmut.mutate(base, rng)
